@@ -8,6 +8,7 @@ import Std.Data.HashMap
 import Std.Data.HashSet
 import FBV.Drv.T1
 import FBV.Drv.DF
+import FBV.Drv.ES
 open FBV FBV.Wire
 
 structure Tally where
@@ -26,6 +27,10 @@ def checkLine (oc : Bool) (line : String) : Option (List String × String) :=
     (FBV.DrvT1.checkT1 oc pre op out post).map fun (v, nt) => (v, if nt then "t1_nontrivial" else "t1_trivial")
   | [("DF" :: pre), post] =>
     (FBV.DrvDF.check pre post).map fun (v, nt) => (v, if nt then "df_nontrivial" else "df_trivial")
+  | [("ES" :: pre), post] =>
+    (FBV.DrvES.checkES pre post).map fun (v, nt) => (v, if nt then "es_nontrivial" else "es_trivial")
+  | [("EB" :: pre), p1, p2] =>
+    (FBV.DrvES.checkEB pre p1 p2).map fun (v, nt) => (v, if nt then "eb_nontrivial" else "eb_trivial")
   | [("T0" :: pre), post] => (FBV.DrvT1.checkT0 pre post).map fun v => (v, "t0")
   | _ => none
 
